@@ -5,6 +5,7 @@ package rw
 
 import (
 	"bytes"
+	gocontext "context"
 	"io"
 	"net/http"
 	"net/url"
@@ -325,6 +326,14 @@ func (Engine) Run(t *tape.Tape, o eng.Opts) *eng.Result {
 	// once before Recovery's status reaches the underlying writer, and Status/Written/Size must be
 	// truthful when ServeHTTP returns.
 	panicOut := viaFlame && sw.Intn(3) == 1
+	// One via-Flame history in four has its request context cancelled (the client went away, a
+	// deadline passed) before one of its operations: nothing the statement says about the writer
+	// depends on the request still being wanted.
+	cancelAt := -1
+	if viaFlame && sw.Intn(4) == 1 {
+		cancelAt = gen.Intn(len(ops) + 1)
+	}
+	cancelReq := func() {}
 	if panicOut && len(ops) > 1 {
 		ops = ops[:1+gen.Intn(len(ops))]
 	}
@@ -399,6 +408,10 @@ func (Engine) Run(t *tape.Tape, o eng.Opts) *eng.Result {
 	writer := func() {
 		for i, x := range ops {
 			compRun(i)
+			if i == cancelAt {
+				cancelReq()
+				res.Faults["request-context-cancelled-mid-history"]++
+			}
 			sched.Yield(world.SiteAct)
 			curOp = i
 			r := &recs[i]
@@ -576,7 +589,14 @@ func (Engine) Run(t *tape.Tape, o eng.Opts) *eng.Result {
 					path = "/r"
 					res.Probes["histories_cut_short_by_a_panic_behind_recovery"]++
 				}
-				rwFlame().ServeHTTP(under, &http.Request{Method: method, URL: &url.URL{Path: path}, Header: http.Header{}, Proto: "HTTP/1.1", ProtoMajor: 1, ProtoMinor: 1, Host: "sim", RequestURI: path})
+				hreq := &http.Request{Method: method, URL: &url.URL{Path: path}, Header: http.Header{}, Proto: "HTTP/1.1", ProtoMajor: 1, ProtoMinor: 1, Host: "sim", RequestURI: path}
+				if cancelAt >= 0 {
+					ctx, cancel := gocontext.WithCancel(gocontext.Background())
+					cancelReq = cancel
+					hreq = hreq.WithContext(ctx)
+				}
+				rwFlame().ServeHTTP(under, hreq)
+				cancelReq()
 				if panicOut && w != nil {
 					// what Recovery did is part of the history: the accessors are truthful at the end
 					want := len(spy.Body)
